@@ -72,7 +72,7 @@ def strategy(tier):
 
 
 def budget(tier):
-    return 2000 if tier == "quick" else 20000
+    return 2000 if tier == "quick" else 200000
 
 
 def _contrast(P):
